@@ -103,11 +103,17 @@ impl Fail {
     }
 }
 
+/// largest exact distinct-case set per accumulator (2^23 hashes, 64 MiB or so); beyond it the set is sampled
+pub const NT_CAP: usize = 1 << 23;
+
 /// Per-worker accumulator; merged in worker order.
 #[derive(Default, Debug)]
 pub struct Local {
     pub evaluations: u64,
     pub nontrivial: HashSet<u64>,
+    /// adaptive sampling of the distinct-case sketch: only hashes whose low `nt_shift` bits are zero are kept once the
+    /// set has outgrown NT_CAP; the distinct count is then the estimate len << nt_shift (exact while nt_shift == 0)
+    pub nt_shift: u32,
     /// non-trivial cases from exhaustive enumerations (distinct by construction)
     pub nontrivial_enum: u64,
     pub classes: BTreeMap<String, u64>,
@@ -143,14 +149,30 @@ impl Local {
     #[inline]
     pub fn nontrivial_hash(&mut self, h: u64) {
         if !self.frozen {
-            self.nontrivial.insert(h);
+            // the sketch sees a mixed hash, so that its low bits are uniform whatever the caller hashed
+            let h = splitmix(h);
+            if h & ((1u64 << self.nt_shift) - 1) == 0 {
+                self.nontrivial.insert(h);
+                if self.nontrivial.len() > NT_CAP {
+                    self.nt_halve();
+                }
+            }
         }
     }
     #[inline]
     pub fn nontrivial_bytes(&mut self, salt: u64, b: &[u8]) {
-        if !self.frozen {
-            self.nontrivial.insert(hash_bytes(b) ^ splitmix(salt));
+        self.nontrivial_hash(hash_bytes(b) ^ splitmix(salt));
+    }
+    fn nt_halve(&mut self) {
+        while self.nontrivial.len() > NT_CAP {
+            self.nt_shift += 1;
+            let mask = (1u64 << self.nt_shift) - 1;
+            self.nontrivial.retain(|x| x & mask == 0);
         }
+    }
+    /// distinct non-trivial cases: exact up to NT_CAP hashed cases per sub-check, an unbiased estimate beyond
+    pub fn distinct(&self) -> u64 {
+        ((self.nontrivial.len() as u64) << self.nt_shift) + self.nontrivial_enum
     }
     pub fn want_sample(&self) -> bool {
         !self.frozen && self.samples.len() < self.sample_cap
@@ -163,7 +185,14 @@ impl Local {
     pub fn merge(&mut self, other: Local) {
         self.evaluations += other.evaluations;
         self.nontrivial_enum += other.nontrivial_enum;
-        self.nontrivial.extend(other.nontrivial);
+        if other.nt_shift > self.nt_shift {
+            self.nt_shift = other.nt_shift;
+            let mask = (1u64 << self.nt_shift) - 1;
+            self.nontrivial.retain(|x| x & mask == 0);
+        }
+        let mask = (1u64 << self.nt_shift) - 1;
+        self.nontrivial.extend(other.nontrivial.into_iter().filter(|x| x & mask == 0));
+        self.nt_halve();
         for (k, v) in other.classes {
             *self.classes.entry(k).or_insert(0) += v;
         }
@@ -205,7 +234,7 @@ impl Report {
         let mut excluded: BTreeMap<String, u64> = BTreeMap::new();
         for (name, l) in &self.subchecks {
             evaluations += l.evaluations;
-            let d = l.nontrivial.len() as u64 + l.nontrivial_enum;
+            let d = l.distinct();
             distinct += d;
             subs.insert(
                 name.clone(),
